@@ -84,6 +84,20 @@ Theorem C17_model_bellman_known :
 Proof. exact rmax_bellman_known. Qed.
 Print Assumptions C17_model_bellman_known.
 
+(* ... hence the returned table is within tol/(1-gamma) of the optimal Q of the OPTIMISTIC empirical
+   model (bopt: known pairs backed up through the empirical model, unknown pairs are self-loops paying
+   rmax), i.e. of any - by the same bound with tol = 0, the only - fixed point Qs of its backup *)
+Theorem C17_model_near_empirical_optimum :
+  forall (nS nA m : nat) (gamma rmax tol : R), (1 <= m)%nat -> 0 <= gamma -> gamma < 1 ->
+  forall (fuel : nat) (exp : list (@step R)) (L : learner R) (Qs : list (list R)),
+  Forall (valid_step nS nA rmax) exp ->
+  @train R NumR nS nA m gamma rmax tol fuel exp = Some L -> 0 <= tol ->
+  (forall s a, (s < nS)%nat -> (a < nA)%nat ->
+     untab2 Qs s a = @bopt R NumR nS nA m gamma rmax L Qs s a) ->
+  forall s a, (s < nS)%nat -> (a < nA)%nat -> Rabs (qf L s a - untab2 Qs s a) <= tol / (1 - gamma).
+Proof. exact rmax_near_empirical_optimum. Qed.
+Print Assumptions C17_model_near_empirical_optimum.
+
 (* the policy built from a Q table is greedy: positive exactly on the row's maximisers, uniform *)
 Theorem C17_model_policy_greedy :
   forall (nA : nat) (q : list (list R)) (s a : nat), (a < nA)%nat ->
@@ -145,6 +159,20 @@ Theorem C17_cert_bellman_known :
 Proof. exact main_bellman. Qed.
 Print Assumptions C17_cert_bellman_known.
 
+(* with unknown pairs treated as optimistic self-loops: distance of the returned table to the optimal
+   Q of the optimistic empirical model built from msdm's tallies *)
+Theorem C17_cert_near_empirical_optimum :
+  forall nS nA m g rmax P Rw ab ini eps O pi ut bt pt,
+  (1 <= m)%nat -> 0 <= Q2R g -> Q2R g < 1 ->
+  @c17_check Q NumQ nS nA m g rmax P Rw ab ini eps O pi ut bt pt = all_true6 ->
+  forall Qs : list (list R), 0 <= Q2R ut -> 0 <= Q2R bt ->
+  (forall s a, (s < nS)%nat -> (a < nA)%nat ->
+     untab2 Qs s a = @bopt R NumR nS nA m (Q2R g) (Q2R rmax) (learnerQR O) Qs s a) ->
+  forall s a, (s < nS)%nat -> (a < nA)%nat ->
+  Rabs (qf (learnerQR O) s a - untab2 Qs s a) <= Rmax (Q2R bt) (Q2R g * Q2R ut) / (1 - Q2R g).
+Proof. exact main_near_optimum. Qed.
+Print Assumptions C17_cert_near_empirical_optimum.
+
 Theorem C17_cert_policy_greedy :
   forall nS nA m g rmax P Rw ab ini eps O pi ut bt pt,
   @c17_check Q NumQ nS nA m g rmax P Rw ab ini eps O pi ut bt pt = all_true6 ->
@@ -191,10 +219,14 @@ Proof. exact mirror_close. Qed.
 Print Assumptions C17_mirror_close.
 
 (* non-vacuity: on a concrete stochastic MDP the model learner terminates with known, partially
-   tried and untried pairs, and its output passes the checker *)
+   tried and untried pairs, its output passes the checker, and the optimistic empirical model has an
+   (exactly exhibited) optimal Q table *)
 Theorem C17_nonvacuous :
   @train Q NumQ 3 2 2 (1#2)%Q 1%Q exTol 100 (experience exEps) = Some exO /\
   l_cnt exO = [[2; 2]; [1; 1]; [0; 0]]%nat /\
-  @c17_check Q NumQ 3 2 2 (1#2)%Q 1%Q exP exRw exAb exIni exEps exO exPi 0%Q exTol 0%Q = all_true6.
-Proof. exact (conj ex_train (conj ex_counts ex_check)). Qed.
+  @c17_check Q NumQ 3 2 2 (1#2)%Q 1%Q exP exRw exAb exIni exEps exO exPi 0%Q exTol 0%Q = all_true6 /\
+  (forall s a, (s < 3)%nat -> (a < 2)%nat ->
+     untab2 (map2 Q2R exQs) s a =
+     @bopt R NumR 3 2 2 (Q2R (1#2)) (Q2R 1) (learnerQR exO) (map2 Q2R exQs) s a).
+Proof. exact ex_all. Qed.
 Print Assumptions C17_nonvacuous.
